@@ -118,10 +118,9 @@ def c02(cx):
     fx = cx.facts("dev-none-stable")
     rules_struct.r_restore(cx, fx)
     rules_struct.r_eof(cx, fx)
-    rules_struct.r_bom_order(cx, fx)
     rules_cfg.r_cfgdiff_macrosep(cx)
     rules_struct.r_comutate(cx, ["dev-none-stable", "dev-msep-stable"])
-    lea_glue.apply(cx, ["R-OFFSET-PROVENANCE", "R-EMIT-ORDER"])
+    lea_glue.apply(cx, ["R-OFFSET-PROVENANCE", "R-EMIT-ORDER", "R-BOM-ORDER"])
 
 
 @prop("C12", 'R-FRAME-BALANCE (on every lex_token path pending-statement frames and the macro nesting level change only '
@@ -142,10 +141,10 @@ def c12(cx):
              "start' does not distinguish position 0).")
 def c17(cx):
     fx = cx.facts("dev-none-stable")
-    rules_struct.r_bom_order(cx, fx)
     rules_struct.r_units(cx, ["dev-none-stable"])
     rules_cfg.r_no_absolute(cx)
-    lea_glue.apply(cx, ["R-DATALINES-START"])
+    rules_struct.r_bom_const(cx, fx)
+    lea_glue.apply(cx, ["R-DATALINES-START", "R-BOM-ORDER"])
 
 
 @prop("C05", 'sibling-implementation agreement R-BULK-AGREE: the field initialisers of into_resolved_token_vec and '
@@ -193,6 +192,7 @@ def c18(cx):
     rules_cfg.r_cfgdiff_macrosep(cx)
     rules_cfg.r_lookbehind(cx)
     rules_struct.r_comutate(cx, ["dev-none-stable", "dev-msep-stable"])
+    lea_glue.apply(cx, ["R-MACROSEP-EMIT"], tag="dev-msep-stable")
 
 
 @prop("C19", "R-STATE-INVENTORY (no global/interior-mutable state, no env/time/thread/rand calls), R-CFGDIFF-DEBUG "
